@@ -243,13 +243,99 @@ theorem SG_pkgData {g : Name → Option Node} {t4 : Name} {k1 k2 k3 : Cid} (n : 
           have ne3 : t' ≠ .adv k3 := by intro e; rw [e, habs] at ht'; cases ht'
           simp only [ne4, ne3, if_false]; exact hold
 
-/-- the miss path alone, with four fresh temp names -/
-theorem SG_pkgMiss {g : Name → Option Node} {t1 t2 t3 t4 : Name} {k1 k2 k3 : Cid} (n : Nat)
-    (hg : GoodFS g)
-    (f1 : g t1 = none) (f2 : g t2 = none) (f3 : g t3 = none) (f4 : g t4 = none)
+theorem SG_unsigned {g : Name → Option Node} {next : Prog} (k : Cid) (h : SG g next) :
+    SG g (.op (.unsigned k) next) := by
+  intro fs Γ obs hfs; simp only [exec, stepOp]; exact h fs _ _ hfs
+
+/-- `cachedPackage`'s signature look-up never stops a builder (whatever it finds) -/
+theorem SG_sigProbe {g : Name → Option Node} {rest : Prog} (sg : Option (Name × Cid)) (hg : GoodFS g)
+    (h : SG g rest) : SG g (sigProbe sg rest) := by
+  cases sg with
+  | none => exact h
+  | some p =>
+    obtain ⟨t0, k0⟩ := p
+    unfold sigProbe
+    refine SG_ifStat ?_ (fun _ => SG_unsigned _ h)
+    intro hres
+    exact SG_read (present_resolves hg (present_of_resolved hres)) h
+
+/-- the temp of the signature section, when there is one, is `P`-good -/
+def SgAll (sg : Option (Name × Cid)) (P : Name → Cid → Prop) : Prop :=
+  match sg with
+  | none => True
+  | some (t0, k0) => P t0 k0
+
+/-- what `cachePackage` starts from: the directory after `ExpandApk` -/
+structure Expanded (g : Name → Option Node) (sg : Option (Name × Cid)) (t1 t2 t3 t4 : Name)
+    (k1 k2 k3 : Cid) : Prop where
+  good : GoodFS g
+  e1 : g t1 = some (.file k1 true)
+  e2 : g t2 = some (.file k2 true)
+  e3 : g t3 = some (.file k3 true)
+  e4 : g t4 = none
+  n1 : NoLinkTo g t1
+  n2 : NoLinkTo g t2
+  n3 : NoLinkTo g t3
+  e0 : SgAll sg (fun t0 k0 => g t0 = some (.file k0 true) ∧ NoLinkTo g t0)
+
+/-- `cachePackage` alone (advertises in the code's order), then `PackageData` and the build's reads -/
+theorem SG_cacheTail {g : Name → Option Node} {sg : Option (Name × Cid)} {t1 t2 t3 t4 : Name}
+    {k1 k2 k3 : Cid} (n : Nat) (hx : Expanded g sg t1 t2 t3 t4 k1 k2 k3)
     (m1 : t1.isTmp = true) (m2 : t2.isTmp = true) (m3 : t3.isTmp = true) (m4 : t4.isTmp = true)
-    (h12 : t1 ≠ t2) (h13 : t1 ≠ t3) (h23 : t2 ≠ t3) (h14 : t1 ≠ t4) (h24 : t2 ≠ t4) (h34 : t3 ≠ t4) :
-    SG g (pkgMiss t1 t2 t3 t4 k1 k2 k3 n) := by
+    (h12 : t1 ≠ t2) (h13 : t1 ≠ t3) (h23 : t2 ≠ t3) (h14 : t1 ≠ t4) (h24 : t2 ≠ t4) (h34 : t3 ≠ t4)
+    (hs : SgAll sg (fun t0 _ => t0.isTmp = true ∧ t0 ≠ t1 ∧ t0 ≠ t2 ∧ t0 ≠ t3 ∧ t0 ≠ t4)) :
+    SG g (cacheTail (pkgData t4 k2 k3 n) sg t1 t2 t3 k1 k2 k3) := by
+  have h21 := h12.symm
+  have h31 := h13.symm
+  have h32 := h23.symm
+  have h41 := h14.symm
+  have h42 := h24.symm
+  have h43 := h34.symm
+  unfold cacheTail
+  refine SG_advertise hx.good hx.e1 m1 hx.n1 ?_
+  intro g7 good7 p71 keep7 pres7 nl7
+  refine SG_mark _ ?_
+  -- the rest after the optional signature advertise, from any directory that kept what matters
+  have hrest : ∀ g7', GoodFS g7' → g7' (.adv k1) ≠ none →
+      g7' t2 = some (.file k2 true) → g7' t3 = some (.file k3 true) → g7' t4 = none →
+      NoLinkTo g7' t2 → NoLinkTo g7' t3 →
+      SG g7' (advertise t2 k2 <| .op (.mark 7) <| advertise t3 k3 <| .op (.mark 8) <|
+        pkgData t4 k2 k3 n (pkgUse k1)) := by
+    intro g7' good7' p1 e2' e3' e4' n2' n3'
+    refine SG_advertise good7' e2' m2 n2' ?_
+    intro g8 good8 p82 keep8 pres8 nl8
+    refine SG_mark _ (SG_advertise good8 (by rw [keep8 t3 m3 h32]; exact e3') m3 (nl8 t3 m3 h32 n3') ?_)
+    intro g9 good9 p93 keep9 pres9 nl9
+    refine SG_mark _ (SG_pkgData n good9 (pres9 k1 (pres8 k1 p1)) (pres9 k2 p82) ?_ m4)
+    rw [keep9 t4 m4 h43, keep8 t4 m4 h42]; exact e4'
+  cases sg with
+  | none =>
+    simp only [advSig]
+    exact hrest g7 good7 p71 (by rw [keep7 t2 m2 h21]; exact hx.e2) (by rw [keep7 t3 m3 h31]; exact hx.e3)
+      (by rw [keep7 t4 m4 h41]; exact hx.e4) (nl7 t2 m2 h21 hx.n2) (nl7 t3 m3 h31 hx.n3)
+  | some p =>
+    obtain ⟨t0, k0⟩ := p
+    obtain ⟨m0, h01, h02, h03, h04⟩ := hs
+    obtain ⟨e0, n0⟩ := hx.e0
+    simp only [advSig]
+    refine SG_advertise good7 (by rw [keep7 t0 m0 h01]; exact e0) m0 (nl7 t0 m0 h01 n0) ?_
+    intro g7' good7' p70 keep7' pres7' nl7'
+    refine SG_mark _ (hrest g7' good7' (pres7' k1 p71) ?_ ?_ ?_ ?_ ?_)
+    · rw [keep7' t2 m2 h02.symm, keep7 t2 m2 h21]; exact hx.e2
+    · rw [keep7' t3 m3 h03.symm, keep7 t3 m3 h31]; exact hx.e3
+    · rw [keep7' t4 m4 h04.symm, keep7 t4 m4 h41]; exact hx.e4
+    · exact nl7' t2 m2 h02.symm (nl7 t2 m2 h21 hx.n2)
+    · exact nl7' t3 m3 h03.symm (nl7 t3 m3 h31 hx.n3)
+
+/-- `ExpandApk` alone, with fresh temp names, leaves an `Expanded` directory -/
+theorem SG_pkgExpand {g : Name → Option Node} {sg : Option (Name × Cid)} {t1 t2 t3 t4 : Name}
+    {k1 k2 k3 : Cid} {tail : Prog} (n : Nat) (hg : GoodFS g)
+    (f1 : g t1 = none) (f2 : g t2 = none) (f3 : g t3 = none) (f4 : g t4 = none)
+    (m1 : t1.isTmp = true) (m2 : t2.isTmp = true) (m3 : t3.isTmp = true)
+    (h12 : t1 ≠ t2) (h13 : t1 ≠ t3) (h23 : t2 ≠ t3) (h14 : t1 ≠ t4) (h24 : t2 ≠ t4) (h34 : t3 ≠ t4)
+    (hs : SgAll sg (fun t0 _ => g t0 = none ∧ t0.isTmp = true ∧ t0 ≠ t1 ∧ t0 ≠ t2 ∧ t0 ≠ t3 ∧ t0 ≠ t4))
+    (htail : ∀ g6, Expanded g6 sg t1 t2 t3 t4 k1 k2 k3 → SG g6 tail) :
+    SG g (pkgExpand sg t1 t2 t3 k1 k2 k3 n tail) := by
   have h21 := h12.symm
   have h31 := h13.symm
   have h32 := h23.symm
@@ -259,46 +345,97 @@ theorem SG_pkgMiss {g : Name → Option Node} {t1 t2 t3 t4 : Name} {k1 k2 k3 : C
   have a1 := adv_ne_tmp m1
   have a2 := adv_ne_tmp m2
   have a3 := adv_ne_tmp m3
+  unfold pkgExpand
+  refine SG_mkdir (SG_mkdir (SG_mark _ ?_))
+  cases sg with
+  | none =>
+    simp only [expandHead]
+    refine SG_create f1 (SG_mark _ ?_)
+    refine SG_chunks n (c := k1) (by simp [updG]) (SG_finish (c := k1) (b := false) (by simp [updG]) ?_)
+    refine SG_read (c := k1) (by simp [resolveG, updG]) ?_
+    refine SG_create (by simp [updG, h21, f2]) (SG_mark _ ?_)
+    refine SG_create (by simp [updG, h31, h32, f3]) (SG_mark _ ?_)
+    refine SG_chunks n (c := k2) (by simp [updG, h23, h21]) ?_
+    refine SG_chunks n (c := k3) (by simp [updG]) ?_
+    refine SG_finish (c := k3) (b := false) (by simp [updG]) ?_
+    refine SG_finish (c := k2) (b := false) (by simp [updG, h23, h21]) (SG_mark _ ?_)
+    refine SG_read (c := k1) (by simp [resolveG, updG, h12, h13]) ?_
+    refine SG_read (c := k3) (by simp [resolveG, updG, h32, h31]) (SG_mark _ ?_)
+    generalize hg6 : updG (updG (updG (updG (updG (updG g t1 (some (.file k1 false))) t1 (some (.file k1 true)))
+      t2 (some (.file k2 false))) t3 (some (.file k3 false))) t3 (some (.file k3 true)))
+      t2 (some (.file k2 true)) = g6
+    have eadv : ∀ k, g6 (.adv k) = g (.adv k) := by
+      intro k; rw [← hg6]; simp [updG, a1 k, a2 k, a3 k]
+    have ekeep : ∀ x, g x ≠ none → g6 x = g x := by
+      intro x hx
+      have x1 : x ≠ t1 := by intro e; rw [e] at hx; exact hx f1
+      have x2 : x ≠ t2 := by intro e; rw [e] at hx; exact hx f2
+      have x3 : x ≠ t3 := by intro e; rw [e] at hx; exact hx f3
+      rw [← hg6]; simp [updG, x1, x2, x3]
+    refine htail g6 ⟨good_of_fresh_changes hg eadv ekeep, ?_, ?_, ?_, ?_,
+      nolink_of_fresh hg f1 eadv, nolink_of_fresh hg f2 eadv, nolink_of_fresh hg f3 eadv, trivial⟩
+    · rw [← hg6]; simp [updG, h12, h13]
+    · rw [← hg6]; simp [updG]
+    · rw [← hg6]; simp [updG, h32]
+    · rw [← hg6]; simp [updG, h41, h42, h43, f4]
+  | some p =>
+    obtain ⟨t0, k0⟩ := p
+    obtain ⟨f0, m0, h01, h02, h03, h04⟩ := hs
+    have h10 := h01.symm
+    have h20 := h02.symm
+    have h30 := h03.symm
+    have h40 := h04.symm
+    have a0 := adv_ne_tmp m0
+    simp only [expandHead]
+    refine SG_create f0 (SG_mark _ ?_)
+    refine SG_chunks n (c := k0) (by simp [updG]) (SG_finish (c := k0) (b := false) (by simp [updG]) ?_)
+    refine SG_read (c := k0) (by simp [resolveG, updG]) ?_
+    refine SG_create (by simp [updG, h10, f1]) (SG_mark _ ?_)
+    refine SG_chunks n (c := k1) (by simp [updG]) (SG_finish (c := k1) (b := false) (by simp [updG]) ?_)
+    refine SG_create (by simp [updG, h21, h20, f2]) (SG_mark _ ?_)
+    refine SG_create (by simp [updG, h31, h32, h30, f3]) (SG_mark _ ?_)
+    refine SG_chunks n (c := k2) (by simp [updG, h23, h21]) ?_
+    refine SG_chunks n (c := k3) (by simp [updG]) ?_
+    refine SG_finish (c := k3) (b := false) (by simp [updG]) ?_
+    refine SG_finish (c := k2) (b := false) (by simp [updG, h23, h21]) (SG_mark _ ?_)
+    refine SG_read (c := k1) (by simp [resolveG, updG, h12, h13]) ?_
+    refine SG_read (c := k3) (by simp [resolveG, updG, h32, h31]) (SG_mark _ ?_)
+    generalize hg6 : updG (updG (updG (updG (updG (updG (updG (updG g t0 (some (.file k0 false)))
+      t0 (some (.file k0 true))) t1 (some (.file k1 false))) t1 (some (.file k1 true)))
+      t2 (some (.file k2 false))) t3 (some (.file k3 false))) t3 (some (.file k3 true)))
+      t2 (some (.file k2 true)) = g6
+    have eadv : ∀ k, g6 (.adv k) = g (.adv k) := by
+      intro k; rw [← hg6]; simp [updG, a0 k, a1 k, a2 k, a3 k]
+    have ekeep : ∀ x, g x ≠ none → g6 x = g x := by
+      intro x hx
+      have x0 : x ≠ t0 := by intro e; rw [e] at hx; exact hx f0
+      have x1 : x ≠ t1 := by intro e; rw [e] at hx; exact hx f1
+      have x2 : x ≠ t2 := by intro e; rw [e] at hx; exact hx f2
+      have x3 : x ≠ t3 := by intro e; rw [e] at hx; exact hx f3
+      rw [← hg6]; simp [updG, x0, x1, x2, x3]
+    refine htail g6 ⟨good_of_fresh_changes hg eadv ekeep, ?_, ?_, ?_, ?_,
+      nolink_of_fresh hg f1 eadv, nolink_of_fresh hg f2 eadv, nolink_of_fresh hg f3 eadv,
+      ⟨?_, nolink_of_fresh hg f0 eadv⟩⟩
+    · rw [← hg6]; simp [updG, h12, h13]
+    · rw [← hg6]; simp [updG]
+    · rw [← hg6]; simp [updG, h32]
+    · rw [← hg6]; simp [updG, h40, h41, h42, h43, f4]
+    · rw [← hg6]; simp [updG, h01, h02, h03]
+
+/-- the miss path alone, with fresh temp names -/
+theorem SG_pkgMiss {g : Name → Option Node} {sg : Option (Name × Cid)} {t1 t2 t3 t4 : Name}
+    {k1 k2 k3 : Cid} (n : Nat) (hg : GoodFS g)
+    (f1 : g t1 = none) (f2 : g t2 = none) (f3 : g t3 = none) (f4 : g t4 = none)
+    (m1 : t1.isTmp = true) (m2 : t2.isTmp = true) (m3 : t3.isTmp = true) (m4 : t4.isTmp = true)
+    (h12 : t1 ≠ t2) (h13 : t1 ≠ t3) (h23 : t2 ≠ t3) (h14 : t1 ≠ t4) (h24 : t2 ≠ t4) (h34 : t3 ≠ t4)
+    (hs : SgAll sg (fun t0 _ => g t0 = none ∧ t0.isTmp = true ∧ t0 ≠ t1 ∧ t0 ≠ t2 ∧ t0 ≠ t3 ∧ t0 ≠ t4)) :
+    SG g (pkgMiss sg t1 t2 t3 t4 k1 k2 k3 n) := by
   unfold pkgMiss pkgMissWith
-  refine SG_mkdir (SG_mkdir (SG_mark _ (SG_create f1 (SG_mark _ ?_))))
-  refine SG_chunks n (c := k1) (by simp [updG]) (SG_finish (c := k1) (b := false) (by simp [updG]) ?_)
-  refine SG_read (c := k1) (by simp [resolveG, updG]) ?_
-  refine SG_create (by simp [updG, h21, f2]) (SG_mark _ ?_)
-  refine SG_create (by simp [updG, h31, h32, f3]) (SG_mark _ ?_)
-  refine SG_chunks n (c := k2) (by simp [updG, h23, h21]) ?_
-  refine SG_chunks n (c := k3) (by simp [updG]) ?_
-  refine SG_finish (c := k3) (b := false) (by simp [updG]) ?_
-  refine SG_finish (c := k2) (b := false) (by simp [updG, h23, h21]) (SG_mark _ ?_)
-  refine SG_read (c := k1) (by simp [resolveG, updG, h12, h13]) ?_
-  refine SG_read (c := k3) (by simp [resolveG, updG, h32, h31]) (SG_mark _ ?_)
-  -- the directory after ExpandApk
-  generalize hg6 : updG (updG (updG (updG (updG (updG g t1 (some (.file k1 false))) t1 (some (.file k1 true)))
-    t2 (some (.file k2 false))) t3 (some (.file k3 false))) t3 (some (.file k3 true)))
-    t2 (some (.file k2 true)) = g6
-  have e1 : g6 t1 = some (.file k1 true) := by rw [← hg6]; simp [updG, h12, h13]
-  have e2 : g6 t2 = some (.file k2 true) := by rw [← hg6]; simp [updG]
-  have e3 : g6 t3 = some (.file k3 true) := by rw [← hg6]; simp [updG, h32]
-  have e4 : g6 t4 = none := by rw [← hg6]; simp [updG, h41, h42, h43, f4]
-  have eadv : ∀ k, g6 (.adv k) = g (.adv k) := by
-    intro k; rw [← hg6]; simp [updG, a1 k, a2 k, a3 k]
-  have ekeep : ∀ x, g x ≠ none → g6 x = g x := by
-    intro x hx
-    have x1 : x ≠ t1 := by intro e; rw [e] at hx; exact hx f1
-    have x2 : x ≠ t2 := by intro e; rw [e] at hx; exact hx f2
-    have x3 : x ≠ t3 := by intro e; rw [e] at hx; exact hx f3
-    rw [← hg6]; simp [updG, x1, x2, x3]
-  have hg6good : GoodFS g6 := good_of_fresh_changes hg eadv ekeep
-  have n1 : NoLinkTo g6 t1 := nolink_of_fresh hg f1 eadv
-  have n2 : NoLinkTo g6 t2 := nolink_of_fresh hg f2 eadv
-  have n3 : NoLinkTo g6 t3 := nolink_of_fresh hg f3 eadv
-  refine SG_advertise hg6good e1 m1 n1 ?_
-  intro g7 good7 p71 keep7 pres7 nl7
-  refine SG_mark _ (SG_advertise good7 (by rw [keep7 t2 m2 h21]; exact e2) m2 (nl7 t2 m2 h21 n2) ?_)
-  intro g8 good8 p82 keep8 pres8 nl8
-  refine SG_mark _ (SG_advertise good8 (by rw [keep8 t3 m3 h32, keep7 t3 m3 h31]; exact e3) m3
-    (nl8 t3 m3 h32 (nl7 t3 m3 h31 n3)) ?_)
-  intro g9 good9 p93 keep9 pres9 nl9
-  refine SG_mark _ (SG_pkgData n good9 (pres9 k1 (pres8 k1 p71)) (pres9 k2 p82) ?_ m4)
-  rw [keep9 t4 m4 h43, keep8 t4 m4 h42, keep7 t4 m4 h41]; exact e4
+  refine SG_pkgExpand n hg f1 f2 f3 f4 m1 m2 m3 h12 h13 h23 h14 h24 h34 hs ?_
+  intro g6 hx
+  refine SG_cacheTail n hx m1 m2 m3 m4 h12 h13 h23 h14 h24 h34 ?_
+  cases sg with
+  | none => trivial
+  | some p => exact ⟨hs.2.1, hs.2.2.1, hs.2.2.2.1, hs.2.2.2.2.1, hs.2.2.2.2.2⟩
 
 end Apko.C19
